@@ -29,7 +29,8 @@ RULES = {
     "C17-G1": "euler_characteristic(self.mesh) == 1 holds on every path reaching the boundary initialisation, the linear solves and the stores into self.uvs",
     "C17-Q1": "square target: for every border length n >= 4 the n positions computed by _initialize_boundary lie on the boundary of the unit "
               "square, are pairwise distinct and go once around the square in the order of the border vertices",
-    "C17-B1": "unless the target is custom the border vertices are ordered by extract_border_cycle(self.mesh); the boundary is initialised for "
+    "C17-B1": "unless the target is custom the border vertices are ordered by extract_border_cycle(self.mesh) (for a custom target: in the order of "
+              "mesh.boundary_vertices, which is not the increasing index order of a mask / sorted list); the boundary is initialised for "
               "self._bnd_mode; circle target: for every n the n positions lie on one circle, are pairwise distinct and go once around it in order",
     "C17-W1": "border order follows border edges: extract_border_cycle leaves the start through the head of the sorted neighbour list and scans "
               "forward with first match (or tail / backward); the sorting contract puts the corner-less border neighbour first",
@@ -207,6 +208,47 @@ def _blocks(e):
     return None
 
 
+def _index_set(e, masks):
+    """classify a canonical index-list expression of run():
+    'interior' | 'interior-sorted' | 'border-list' | 'border-sorted' | 'cycle' | 'cycle-edges' | None"""
+    while isinstance(e, ast.Call) and au.call_tail(e) in ("array", "asarray", "list", "tuple") and len(e.args) >= 1 and not isinstance(e.args[0], (ast.List, ast.Tuple)):
+        e = e.args[0]
+    s = au.src(e)
+    if s == "self.mesh.interior_vertices":
+        return "interior"
+    if s == "self.mesh.boundary_vertices":
+        return "border-list"
+    if isinstance(e, ast.Subscript) and isinstance(e.value, ast.Call) and au.call_tail(e.value) == "extract_border_cycle" \
+            and e.value.args and au.src(e.value.args[0]) == "self.mesh" and au.const(e.slice) in (0, 1):
+        return "cycle" if au.const(e.slice) == 0 else "cycle-edges"
+    if isinstance(e, ast.Call) and au.call_tail(e) in ("sorted", "sort", "unique") and e.args:
+        inner = _index_set(e.args[0], masks)
+        return {"border-list": "border-sorted", "cycle": "border-sorted", "interior": "interior-sorted"}.get(inner)
+    # positions where a vertex mask is set / not set, in increasing order
+    arg = None
+    if isinstance(e, ast.Call) and au.call_tail(e) == "flatnonzero" and len(e.args) == 1:
+        arg = e.args[0]
+    elif isinstance(e, ast.Subscript) and au.const(e.slice) == 0 and isinstance(e.value, ast.Call) and au.call_tail(e.value) in ("where", "nonzero") \
+            and len(e.value.args) == 1:
+        arg = e.value.args[0]
+    if arg is not None:
+        neg = False
+        while True:
+            if isinstance(arg, ast.UnaryOp) and isinstance(arg.op, (ast.Invert, ast.Not)):
+                arg, neg = arg.operand, not neg
+            elif isinstance(arg, ast.Call) and au.call_tail(arg) == "logical_not" and len(arg.args) == 1:
+                arg, neg = arg.args[0], not neg
+            elif isinstance(arg, ast.Compare) and len(arg.ops) == 1 and isinstance(arg.ops[0], (ast.Eq, ast.NotEq)) and isinstance(au.const(arg.comparators[0]), bool):
+                neg = neg != ((au.const(arg.comparators[0]) is False) == isinstance(arg.ops[0], ast.Eq))
+                arg = arg.left
+            else:
+                break
+        if isinstance(arg, ast.Name) and masks.get(arg.id) in ("boundary_vertices", "interior_vertices"):
+            is_border = (masks[arg.id] == "boundary_vertices") != neg
+            return "border-sorted" if is_border else "interior-sorted"
+    return None
+
+
 def _init_coord(e):
     """0 / 1 when e is `<...>._initialize_boundary(...)[k]`"""
     if isinstance(e, ast.Subscript) and isinstance(e.value, ast.Call) and au.call_tail(e.value) == "_initialize_boundary" and au.const(e.slice) in (0, 1):
@@ -228,26 +270,55 @@ def _coords_of(x):
     return None
 
 
+class _KeepScope:
+    """a Scope whose canon() never substitutes the given names"""
+
+    def __init__(self, scope, keep):
+        self._scope, self._keep = scope, tuple(keep)
+
+    def canon(self, e, at, keep=(), **kw):
+        return self._scope.canon(e, at, keep=tuple(keep or ()) + self._keep, **kw)
+
+    def __getattr__(self, name):
+        return getattr(self._scope, name)
+
+
 def run_facts(ctx):
     fn0 = ctx.repo.func(TUT, f"{CLS}.run")
     fn, S, nz = H.norm_fn(ctx, TUT, f"{CLS}.run", keep=("_initialize_boundary", "extract_border_cycle", "log", "warn"), public_methods=True)
     facts = {"fn0": fn0, "fn": fn, "S": S, "site": ctx.site(TUT, fn0), "solves": [], "inlined": sorted(set(nz.inlined))}
     facts["inits"] = [c for c in au.calls(fn) if au.call_tail(c) == "_initialize_boundary"]
+    # boolean masks over the vertices:  M = np.zeros(len(vertices), dtype=bool); M[mesh.boundary_vertices] = True
+    masks = {}
+    for st, tgt, val in H.subscript_stores(fn, lambda x: isinstance(x, ast.Name)):
+        nm = tgt.value.id
+        d = S.value(nm, st)
+        if isinstance(d, ast.Call) and au.call_tail(d) in ("zeros", "full") and d.args and au.src(d.args[0]) in ("len(self.mesh.vertices)",) \
+                and any(k.arg == "dtype" and au.src(k.value) in ("bool", "np.bool_", "numpy.bool_") for k in d.keywords):
+            what = au.src(S.canon(tgt.slice, st))
+            ok = isinstance(st, ast.Assign) and au.const(S.canon(val, st)) is True and what in ("self.mesh.boundary_vertices", "self.mesh.interior_vertices")
+            masks[nm] = (what.split(".")[-1] if ok and nm not in masks else "?")
+    facts["masks"] = masks
+    mk = tuple(sorted(masks))
+    _canon0 = S.canon
+    S_canon = lambda e, at: _canon0(e, at, keep=mk)
+    if mk:
+        facts["S"] = S = _KeepScope(S, mk)      # the mask names are kept by every later canonicalisation (they are classified by _index_set)
     for c in au.calls(fn):
         Mc = rc = None
         if au.call_tail(c) in ("spsolve", "solve") and len(c.args) == 2:
-            Mc, rc = S.canon(c.args[0], c), S.canon(c.args[1], c)
+            Mc, rc = S_canon(c.args[0], c), S_canon(c.args[1], c)
         elif len(c.args) == 1 and not c.keywords:
             # solve = factorized(M); x = solve(rhs)      /     splu(M).solve(rhs)
-            f = S.canon(c.func, c)
+            f = S_canon(c.func, c)
             if isinstance(f, ast.Call) and au.call_tail(f) == "factorized" and len(f.args) == 1:
-                Mc, rc = f.args[0], S.canon(c.args[0], c)
+                Mc, rc = f.args[0], S_canon(c.args[0], c)
             elif isinstance(f, ast.Attribute) and f.attr == "solve" and isinstance(f.value, ast.Call) and au.call_tail(f.value) in ("splu", "spilu", "factorized") \
                     and len(f.value.args) == 1:
-                Mc, rc = f.value.args[0], S.canon(c.args[0], c)
+                Mc, rc = f.value.args[0], S_canon(c.args[0], c)
         if Mc is not None:
             mv = H.matvec(rc)
-            facts["solves"].append({"call": c, "M": Mc, "rhs": rc, "canon": S.canon(c, c), "LI": _blocks(Mc), "sign": mv[0] if mv else None,
+            facts["solves"].append({"call": c, "M": Mc, "rhs": rc, "canon": S_canon(c, c), "LI": _blocks(Mc), "sign": mv[0] if mv else None,
                                     "LB": _blocks(mv[1]) if mv else None, "x": mv[2] if mv else None,
                                     "coords": _coords_of(mv[2]) if mv else None})
     return facts
@@ -413,9 +484,14 @@ def b1_border(ctx, facts):
         return None
     n_cycle = 0
     for conds, leaf in hj_scope.ifexp_leaves(B):
-        is_cycle = isinstance(leaf, ast.Subscript) and isinstance(leaf.value, ast.Call) and au.call_tail(leaf.value) == "extract_border_cycle" \
-            and leaf.value.args and au.src(leaf.value.args[0]) == "self.mesh"
-        if is_cycle and au.const(leaf.slice) == 0:
+        kind_b = _index_set(leaf, facts.get("masks", {}))
+        is_cycle = kind_b in ("cycle", "cycle-edges")
+        if kind_b == "border-sorted":
+            ctx.fail("C17-B1", site, "run: the border index list holds the border vertices in increasing index order",
+                     f"`{au.src(leaf)[:70]}`: circle / square positions go to the k-th vertex of the border cycle, and row k of a custom boundary to the k-th "
+                     "vertex of mesh.boundary_vertices (which is not sorted): in index order the prescribed positions land on other border vertices")
+            continue
+        if kind_b == "cycle":
             n_cycle += 1
             ab = H.Abs(atom)
             code = ab.boolean(H.conj(conds))
@@ -437,8 +513,7 @@ def b1_border(ctx, facts):
         if is_cycle:
             ctx.fail("C17-B1", site, "run: the border index list is the edge list of extract_border_cycle, not its vertex list", "")
             continue
-        if au.src(leaf) in ("self.mesh.boundary_vertices",) or (isinstance(leaf, ast.Call) and au.call_tail(leaf) in ("list", "sorted")
-                                                               and leaf.args and au.src(leaf.args[0]) == "self.mesh.boundary_vertices"):
+        if kind_b == "border-list":
             ab = H.Abs(atom)
             code = ab.boolean(H.conj(conds))
             if ab.unknown:
@@ -483,9 +558,10 @@ def h1_system(ctx, facts):
         else:
             covered.append(s["coords"])
         if ok:
-            if au.src(r1) == "self.mesh.interior_vertices":
+            kind_free = _index_set(r1, facts.get("masks", {}))
+            if kind_free in ("interior", "interior-sorted"):
                 ctx.ok("C17-H1", ssite, "free = interior vertices")
-            elif au.src(r1) in ("self.mesh.boundary_vertices", "self.mesh.id_vertices") or (isinstance(r1, ast.Subscript) and isinstance(r1.value, ast.Call)
+            elif kind_free in ("border-list", "border-sorted", "cycle") or au.src(r1) in ("self.mesh.boundary_vertices", "self.mesh.id_vertices") or (isinstance(r1, ast.Subscript) and isinstance(r1.value, ast.Call)
                                                                                             and au.call_tail(r1.value) == "extract_border_cycle"):
                 ctx.fail("C17-H1", ssite, "run: the free index list is not self.mesh.interior_vertices", f"found `{au.src(r1)[:60]}`")
             else:
